@@ -262,15 +262,16 @@ def run_case(case, ctx):
             f = root / fname
             f.parent.mkdir(parents=True, exist_ok=True)
             f.write_bytes(text.encode("utf-8"))
-            args = ["--no-multiprocessing", "--root", str(root), "annotate", "-c", "New Holder", "-l", "MIT", "--year", "2021"]
+            cwd, gargs, fargs = annot.place(rng, root, [f])
+            args = gargs + ["annotate", "-c", "New Holder", "-l", "MIT", "--year", "2021"]
             if forced:
                 args += ["--style", short]
             if no_replace:
                 args.append("--no-replace")
             if multi:
                 args.append("--multi-line")
-            args.append(str(f))
-            r = run_cli(args, cwd=str(root))
+            args += fargs
+            r = run_cli(args, cwd=cwd)
             res.n += 1
             desc = {"short": short, "eol": eolname, "header": header_pos, "no_replace": no_replace, "bom": bom, "decl": bool(decl),
                     "final_nl": final_nl, "multi": multi}
